@@ -1,14 +1,20 @@
 //! fv — deterministic simulation checks for the Flounder UCI engine.
 //!   fv check <ID> [--tier quick|thorough] [--replay FILE]
 //!   fv selftest [rules|determinism]
+mod c05;
+mod c06;
+mod c07;
+mod c15;
 mod c16;
 mod common;
 mod gen;
 mod realbin;
+mod refsearch;
 mod rng;
 mod rules;
 mod selftest;
 mod simworld;
+mod sworld;
 
 use common::{Ctx, Tier};
 use std::path::PathBuf;
@@ -19,6 +25,12 @@ fn usage() -> ! {
 }
 
 fn main() {
+    // everything runs on a thread with a large stack (the engine's quiescence recursion is unbounded)
+    let h = std::thread::Builder::new().stack_size(common::WORKER_STACK).spawn(real_main).unwrap();
+    let _ = h.join();
+}
+
+fn real_main() {
     let args: Vec<String> = std::env::args().skip(1).collect();
     if args.is_empty() {
         usage();
@@ -76,6 +88,14 @@ fn main() {
             };
             println!("VERIF_SEED={} property={} tier={} workers={} repo={}", seed, prop, tier.name(), workers, engine::REPO_PATH);
             let code = match (prop.as_str(), replay) {
+                ("C05", None) => c05::run(&ctx),
+                ("C05", Some(p)) => c05::replay(&p),
+                ("C07", None) => c07::run(&ctx),
+                ("C07", Some(p)) => c07::replay(&p),
+                ("C15", None) => c15::run(&ctx),
+                ("C15", Some(p)) => c15::replay(&p),
+                ("C06", None) => c06::run(&ctx),
+                ("C06", Some(p)) => c06::replay(&p),
                 ("C16", None) => c16::run(&ctx),
                 ("C16", Some(p)) => c16::replay(&p),
                 _ => {
